@@ -7,6 +7,7 @@ import (
 	"fmt"
 	"math/rand"
 	"os"
+	"sort"
 	"strings"
 
 	"verif/core"
@@ -68,6 +69,10 @@ func runClass(c *core.Ctx, cl detClass, v runVariant) (bool, []byte, *runner.Res
 		case "file":
 			inFile = c.Scratch.File("c12.in", cl.input)
 			args = append(args, inFile)
+		case "devstdin":
+			// FILE that is a pipe
+			opt.Stdin = cl.input
+			args = append(args, "/dev/stdin")
 		default:
 			if !v.devNull {
 				opt.Stdin = cl.input
@@ -134,7 +139,40 @@ func checkC12(c *core.Ctx) {
 		"random":       []byte(randomChordText(r0, 40, true)),
 		"empty":        []byte(""),
 	}
-	for n, t := range texts {
+	// long pieces that change key every few chords (the converter carries the scale in force from chord to chord)
+	{
+		ks := theory.Supported()
+		notes := []string{"C", "D", "E", "F", "G", "A", "B"}
+		var b strings.Builder
+		for i := 0; i < 2000; i++ {
+			fmt.Fprintf(&b, "%s[1]", notes[r0.Intn(7)])
+			if i%8 == 3 {
+				fmt.Fprintf(&b, "{key=%s}", ks[r0.Intn(len(ks))])
+			}
+			b.WriteString(" ")
+		}
+		texts["n2000-keychanges"] = []byte(b.String())
+		b.Reset()
+		for i := 0; i < 1100; i++ {
+			fmt.Fprintf(&b, "%d[1/2]", 1+r0.Intn(7))
+			if i%5 == 0 {
+				fmt.Fprintf(&b, "{key=%s,bpm=%d}", ks[r0.Intn(len(ks))], 60+r0.Intn(100))
+			}
+			b.WriteString("\n")
+		}
+		texts["n1100-degrees-keychanges"] = []byte(b.String())
+	}
+	// a byte order mark in front of the text means the same on every input path (today: a syntax error)
+	texts["bom"] = []byte("\ufeffC[1] Am7/G[2]{txt=x} R[1]")
+	texts["bom-only"] = []byte("\ufeff")
+	texts["crlf"] = []byte("C[1]\r\nAm7/G[2]{txt=x}\r\nR[1]\r\n")
+	var textNames []string
+	for n := range texts {
+		textNames = append(textNames, n)
+	}
+	sort.Strings(textNames)
+	for _, n := range textNames {
+		t := texts[n]
 		add("text parse/"+n, []string{"text", "parse"}, t, true, true)
 		add("text conv syllable/"+n, []string{"text", "conv", "syllable", "--key", "D"}, t, true, true)
 	}
@@ -154,6 +192,15 @@ func checkC12(c *core.Ctx) {
 		add(fmt.Sprintf("write event/%d", i), []string{"write", "event"}, doc, true, true)
 		add(fmt.Sprintf("write parse/%d", i), []string{"write", "parse"}, doc, true, true)
 		add(fmt.Sprintf("write conv/%d", i), []string{"write", "conv", "-c", "cmt"}, doc, true, true)
+	}
+	if len(classes) > 0 {
+		// the same documents behind a byte order mark / with CRLF line ends
+		bp := model.RandPiece(r0, model.GenOpts{MinLen: 3, MaxLen: 6, RestProb: 0.2, SettingProb: 0.3, TextProb: 0.2, KeyChanges: true, MaxDeg: 7, SimpleOnly: true, TextSafe: true})
+		doc := bp.YAML(model.YAMLStyle{})
+		for _, cmd := range [][]string{{"write"}, {"write", "parse"}, {"write", "conv", "-c", "cmt"}} {
+			add(strings.Join(cmd[:min(2, len(cmd))], " ")+"/bom", cmd, append([]byte("\ufeff"), doc...), true, true)
+			add(strings.Join(cmd[:min(2, len(cmd))], " ")+"/crlf", cmd, bytes.ReplaceAll(doc, []byte("\n"), []byte("\r\n")), true, true)
+		}
 	}
 	add("write/invalid", []string{"write"}, []byte("- chord: {degree: \"1\", name: \"nosuch\"}\n  values: [1]\n"), true, true)
 	add("write event/no values", []string{"write", "event"}, []byte("- chord: {degree: \"1\", name: \"\"}\n"), true, true)
@@ -264,7 +311,7 @@ func checkC12(c *core.Ctx) {
 			variants = append(variants, v)
 		}
 		if cl.reads && cl.input != nil {
-			for _, ip := range []string{"dash", "file"} {
+			for _, ip := range []string{"dash", "file", "devstdin"} {
 				v := base
 				v.inPath = ip
 				variants = append(variants, v)
@@ -291,7 +338,7 @@ func checkC12(c *core.Ctx) {
 		for k := 0; k < combos; k++ {
 			v := runVariant{procs: []int{0, 1, 2, 4, 8, 16}[r.Intn(6)], race: r.Intn(4) == 0, debug: r.Intn(3) == 0, inPath: "stdin"}
 			if cl.reads && cl.input != nil {
-				v.inPath = []string{"stdin", "dash", "file"}[r.Intn(3)]
+				v.inPath = []string{"stdin", "dash", "file", "devstdin"}[r.Intn(4)]
 			}
 			if cl.writes {
 				v.outFile = r.Intn(3) == 0
@@ -300,7 +347,12 @@ func checkC12(c *core.Ctx) {
 			variants = append(variants, v)
 		}
 		dims := map[string]bool{}
+		debugDiffers := false
 		for _, v := range variants {
+			if v.debug && debugDiffers {
+				// already reported for this class; the other dimensions are still judged on their own
+				v.debug = false
+			}
 			ok, out, res := runClass(c, cl, v)
 			if res.WallKill || res.StartErr != nil {
 				c.Inconclusive("watchdog/start failure for " + cl.name)
@@ -332,6 +384,11 @@ func checkC12(c *core.Ctx) {
 				}
 				c.Violate("class", i, class+":"+variantDim(v)+failing, fmt.Sprintf("`crd %s`: output differs between the first run and a run with %s: %s", strings.Join(cl.args, " "), v, firstLineDiff(out0, out)),
 					map[string]any{"first": obs(res0), "other": obs(res), "class": cl.name})
+				if v.debug {
+					// a difference caused by --debug must not hide what the other dimensions do to this class
+					debugDiffers = true
+					continue
+				}
 				return
 			}
 			if v.procs > 0 {
